@@ -15,8 +15,7 @@ use interpose::{DelayCfg, DelayPoint, Pending};
 use serde_json::{json, Value};
 use std::collections::BTreeMap;
 use std::io::{Read, Write};
-use std::os::fd::{AsRawFd, IntoRawFd};
-use std::sync::mpsc;
+use std::os::fd::IntoRawFd;
 use std::sync::{Arc, Mutex};
 use std::time::{Duration, Instant};
 use vharness::dbg::{self, stop_json};
@@ -79,9 +78,22 @@ fn raw_pipe() -> (i32, i32) {
     (fds[0], fds[1])
 }
 
+/// a debugger kept across sessions of one worker: later sessions re-run the puppet through the
+/// debugger's own restart path (the DWARF of the puppet is parsed once; the tracer state is rebuilt)
+struct Kept {
+    dbg: Debugger,
+    rec: dbg::Recorder,
+    out: dbg::Output,
+    bps: Vec<u64>,
+}
+
 struct Session {
     dbg: Option<Debugger>,
+    rec: dbg::Recorder,
     out: dbg::Output,
+    bps: Vec<u64>,
+    fresh: bool,
+    stdout_mark: usize,
     pid: i32,
     acks: Arc<Mutex<Acks>>,
     /// write ends of the gates by logical thread
@@ -94,7 +106,7 @@ fn num(j: &Value, k: &str, d: i64) -> i64 {
     j.get(k).and_then(|v| v.as_i64()).unwrap_or(d)
 }
 
-fn launch(puppet: &str, job: &Value) -> Session {
+fn launch(puppet: &str, src: &str, lines: &Value, job: &Value, kept: &mut Option<Kept>) -> Session {
     let n = num(job, "n", 2);
     let spawn = num(job, "spawn", 0);
     let gated = job["mode"] == "steer";
@@ -128,8 +140,29 @@ fn launch(puppet: &str, job: &Value) -> Session {
     } else {
         std::env::remove_var("C09_GATES");
     }
-    let (dbg, _rec, out, pid) = dbg::launch(puppet, &[]);
-    Session { dbg: Some(dbg), out, pid: pid.as_raw(), acks, gate_w, gate_r, ack_w }
+    let tl = Instant::now();
+    let reuse = job["reuse"].as_bool().unwrap_or(false);
+    if !reuse {
+        if let Some(k) = kept.take() {
+            let _ = catch(move || drop(k.dbg));
+        }
+    }
+    if let Some(k) = kept.take() {
+        let mark = k.out.stdout.lock().unwrap().len();
+        k.rec.take();
+        return Session { dbg: Some(k.dbg), rec: k.rec, out: k.out, bps: k.bps, fresh: false, stdout_mark: mark, pid: 0,
+                         acks, gate_w, gate_r, ack_w };
+    }
+    let (mut dbg, rec, out, pid) = dbg::launch(puppet, &[]);
+    if std::env::var("C09_TIMING").is_ok() {
+        eprintln!("[c09] launch {:?}", tl.elapsed());
+    }
+    let bps = match set_breakpoints(&mut dbg, src, lines, 2) {
+        Ok(a) => a,
+        Err(e) => vharness::tool_error(&e),
+    };
+    rec.take();
+    Session { dbg: Some(dbg), rec, out, bps, fresh: true, stdout_mark: 0, pid: pid.as_raw(), acks, gate_w, gate_r, ack_w }
 }
 
 impl Session {
@@ -219,11 +252,96 @@ fn set_breakpoints(d: &mut Debugger, src: &str, lines: &Value, sites: i64) -> Re
     Ok(addrs)
 }
 
-fn one_command(d: &mut Debugger, first: bool) -> Result<Result<Value, String>, String> {
-    catch(|| {
-        let r = if first { d.start_debugee_with_reason() } else { d.continue_debugee_with_reason() };
-        r.map(|s| stop_json(&s)).map_err(|e| e.to_string())
-    })
+fn one_command(s: &mut Session, first: bool) -> Result<Result<Value, String>, String> {
+    let fresh = s.fresh;
+    let rec = s.rec.clone();
+    let d = s.dbg.as_mut().unwrap();
+    let r = catch(|| {
+        if first && !fresh {
+            // restart path: the API returns a synthetic reason; what was reported is in the hook events
+            d.start_debugee_force_with_reason().map_err(|e| e.to_string()).map(|_| {
+                let hooks = rec.take();
+                let tid = d.ecx().pid_on_focus().as_raw();
+                if let Some(h) = hooks.iter().rev().find(|h| h["hook"] == "breakpoint") {
+                    json!({"kind": "breakpoint", "tid": tid, "pc": h["pc"], "hooks": hooks.len()})
+                } else if let Some(h) = hooks.iter().rev().find(|h| h["hook"] == "exit") {
+                    json!({"kind": "exit", "code": h["code"]})
+                } else {
+                    json!({"kind": "start"})
+                }
+            })
+        } else {
+            let r = if first { d.start_debugee_with_reason() } else { d.continue_debugee_with_reason() };
+            r.map(|s| stop_json(&s)).map_err(|e| e.to_string())
+        }
+    });
+    if first && !fresh {
+        // pid of the re-created process: the main thread is the tracee the debugger lists with the lowest tid
+        if let Some(d) = s.dbg.as_ref() {
+            if let Ok(ts) = d.thread_state() {
+                if let Some(m) = ts.iter().map(|t| t.thread.pid.as_raw()).min() {
+                    if let Ok(st) = std::fs::read_to_string(format!("/proc/{m}/status")) {
+                        if let Some(l) = st.lines().find(|l| l.starts_with("Tgid:")) {
+                            s.pid = l[5..].trim().parse().unwrap_or(m);
+                        }
+                    }
+                }
+            }
+        }
+    }
+    r
+}
+
+
+// ---------------------------------------------------------------------------------------------------
+// watchdog: a command that does not return is data.  The trace so far is written with a final
+// `report kind=hung`, the debuggee is killed and the worker exits with code 3.
+// ---------------------------------------------------------------------------------------------------
+struct Dump {
+    job: Value,
+    pid: i32,
+    ncmd: usize,
+    deadline: Instant,
+}
+static DUMP: Mutex<Option<Dump>> = Mutex::new(None);
+
+fn arm_watchdog(job: &Value, pid: i32, ncmd: usize) {
+    let secs = num(job, "cmd_timeout", 25) as u64;
+    *DUMP.lock().unwrap() = Some(Dump { job: job.clone(), pid, ncmd, deadline: Instant::now() + Duration::from_secs(secs) });
+}
+fn disarm_watchdog() {
+    *DUMP.lock().unwrap() = None;
+}
+fn start_watchdog() {
+    std::thread::spawn(|| loop {
+        std::thread::sleep(Duration::from_millis(100));
+        let g = DUMP.lock().unwrap();
+        let Some(d) = g.as_ref() else { continue };
+        if Instant::now() < d.deadline {
+            continue;
+        }
+        let tasks = if d.pid > 0 { probe::task_states_json(d.pid) } else { Value::Null };
+        interpose::push(json!({"ev": "report", "cmd": d.ncmd, "kind": "hung", "tid": 0, "pc": 0, "err": "command did not return",
+                               "tasks": tasks, "threads": Value::Null, "parked": format!("{:?}", interpose::parked())}));
+        let events = interpose::take();
+        let head = json!({"ev": "head", "main": d.pid, "job": d.job["id"], "mode": d.job["mode"], "n": d.job["n"], "k": d.job["k"],
+                          "k2": d.job["k2"], "sites": d.job["sites"], "spawn": d.job["spawn"], "seed": d.job["seed"],
+                          "tids": {}, "pass": {}, "meta": {"cmds": d.ncmd, "last": "hung"}});
+        let path = d.job["out"].as_str().unwrap_or("/dev/null");
+        let mut buf = serde_json::to_string(&head).unwrap();
+        buf.push('\n');
+        for e in &events {
+            buf.push_str(&serde_json::to_string(e).unwrap());
+            buf.push('\n');
+        }
+        let _ = std::fs::write(path, buf);
+        println!("{}", serde_json::to_string(&json!({"id": d.job["id"], "ok": false, "hung": true, "events": events.len(), "out": path})).unwrap());
+        let _ = std::io::stdout().flush();
+        if d.pid > 0 {
+            unsafe { libc::kill(d.pid, libc::SIGKILL) };
+        }
+        std::process::exit(3);
+    });
 }
 
 fn parse_pass(stdout: &str) -> Value {
@@ -240,18 +358,19 @@ fn parse_pass(stdout: &str) -> Value {
     Value::Object(o)
 }
 
-fn finish(mut s: Session, job: &Value, meta: Value, ok_exit: bool, t0: Instant) -> Value {
+fn finish(mut s: Session, job: &Value, meta: Value, ok_exit: bool, t0: Instant, kept: &mut Option<Kept>) -> Value {
+    if std::env::var("C09_TIMING").is_ok() {
+        eprintln!("[c09] to finish {:?}", t0.elapsed());
+    }
     interpose::stop();
     interpose::clear_hold();
     let injected = interpose::clear_delays();
-    let mut events = interpose::take();
+    let events = interpose::take();
     s.close_fds();
     if ok_exit {
-        // normal teardown; a panic in Drop is data
+        // keep the debugger for the next session of this worker
         if let Some(d) = s.dbg.take() {
-            if let Err(p) = catch(move || drop(d)) {
-                events.push(json!({"ev": "drop_panic", "msg": p}));
-            }
+            *kept = Some(Kept { dbg: d, rec: s.rec.clone(), out: s.out.clone(), bps: s.bps.clone() });
         }
     } else if let Some(d) = s.dbg.take() {
         std::mem::forget(d);
@@ -261,16 +380,24 @@ fn finish(mut s: Session, job: &Value, meta: Value, ok_exit: bool, t0: Instant) 
     }
     // let the output drainers see EOF
     let deadline = Instant::now() + Duration::from_millis(if ok_exit { 1500 } else { 100 });
-    let mut stdout = s.out.stdout_string();
+    let mark = s.stdout_mark;
+    let tail = |o: &dbg::Output| -> String {
+        let b = o.stdout.lock().unwrap();
+        String::from_utf8_lossy(&b[mark.min(b.len())..]).to_string()
+    };
+    let mut stdout = tail(&s.out);
     while ok_exit && !stdout.contains("PASS") && Instant::now() < deadline {
         std::thread::sleep(Duration::from_millis(5));
-        stdout = s.out.stdout_string();
+        stdout = tail(&s.out);
+    }
+    if std::env::var("C09_TIMING").is_ok() {
+        eprintln!("[c09] after drop {:?}", t0.elapsed());
     }
     let pass = parse_pass(&stdout);
     let acks = s.acks.lock().unwrap();
     let tids: BTreeMap<String, i32> = acks.tids.iter().map(|(k, v)| (k.to_string(), *v)).collect();
     // header line first (TraceKernel reads Raw[1].main)
-    let head = json!({"ev": "head", "main": s.pid, "job": job["id"], "mode": job["mode"], "n": job["n"], "k": job["k"],
+    let head = json!({"ev": "head", "main": s.pid, "fresh": s.fresh, "job": job["id"], "mode": job["mode"], "n": job["n"], "k": job["k"],
                       "k2": job["k2"], "sites": job["sites"], "spawn": job["spawn"], "seed": job["seed"],
                       "tids": tids, "pass": pass, "meta": meta, "delays_injected": injected});
     let path = job["out"].as_str().unwrap_or("/dev/null");
@@ -290,16 +417,10 @@ fn finish(mut s: Session, job: &Value, meta: Value, ok_exit: bool, t0: Instant) 
 // ---------------------------------------------------------------------------------------------------
 // free-running sessions
 // ---------------------------------------------------------------------------------------------------
-fn run_free(puppet: &str, src: &str, lines: &Value, job: &Value) -> Value {
+fn run_free(puppet: &str, src: &str, lines: &Value, job: &Value, kept: &mut Option<Kept>) -> Value {
     let t0 = Instant::now();
-    let mut s = launch(puppet, job);
-    let mut d = s.dbg.take().unwrap();
-    let bps = match set_breakpoints(&mut d, src, lines, num(job, "sites", 1)) {
-        Ok(a) => a,
-        Err(e) => vharness::tool_error(&e),
-    };
-    s.dbg = Some(d);
-    interpose::push(json!({"ev": "bps", "addrs": bps}));
+    let mut s = launch(puppet, src, lines, job, kept);
+    interpose::push(json!({"ev": "bps", "addrs": s.bps}));
     if let Some(c) = delay_cfg(job) {
         interpose::set_delays(c);
     }
@@ -310,8 +431,283 @@ fn run_free(puppet: &str, src: &str, lines: &Value, job: &Value) -> Value {
     let mut last = String::new();
     while ncmd < max_cmds {
         ncmd += 1;
-        interpose::push(json!({"ev": "cmd", "cmd": ncmd, "name": if ncmd == 1 { "start" } else { "continue" }}));
-        let res = one_command(s.dbg.as_mut().unwrap(), ncmd == 1);
+        let tasks = if ncmd > 1 { probe::task_states_json(s.pid) } else { Value::Null };
+        interpose::push(json!({"ev": "cmd", "cmd": ncmd, "name": if ncmd == 1 { "start" } else { "continue" }, "tasks": tasks}));
+        let tc = Instant::now();
+        arm_watchdog(job, s.pid, ncmd);
+        let res = one_command(&mut s, ncmd == 1);
+        disarm_watchdog();
+        let t1 = tc.elapsed();
+        let rep = report(&s, ncmd, &res);
+        if std::env::var("C09_TIMING").is_ok() {
+            let mut ru: libc::rusage = unsafe { std::mem::zeroed() };
+            unsafe { libc::getrusage(libc::RUSAGE_SELF, &mut ru) };
+            eprintln!("[c09] free cmd {ncmd} {:?} report {:?} cpu_user {}.{:03} sys {}.{:03}", t1, tc.elapsed() - t1,
+                      ru.ru_utime.tv_sec, ru.ru_utime.tv_usec / 1000, ru.ru_stime.tv_sec, ru.ru_stime.tv_usec / 1000);
+        }
+        last = rep["kind"].as_str().unwrap_or("").to_string();
+        interpose::push(rep);
+        match last.as_str() {
+            "breakpoint" | "signal" => {}
+            "exit" => {
+                ok_exit = true;
+                break;
+            }
+            _ => break,
+        }
+    }
+    finish(s, job, json!({"cmds": ncmd, "last": last}), ok_exit, t0, kept)
+}
+
+
+// ---------------------------------------------------------------------------------------------------
+// steered sessions: a schedule skeleton from a Stalk behaviour decides, for each stop-producing step
+// of a puppet thread (breakpoint arrival, clone, exit), before which tracer syscall it happens.
+// The tracer's own choices (hash-map order, waitpid(-1) pick) are observed, not forced: the skeleton is
+// guidance, the verdict comes from validating the recorded trace.
+// ---------------------------------------------------------------------------------------------------
+#[derive(Clone, Debug)]
+struct Item {
+    c: i64,
+    k: i64,
+    t: usize,
+    sys: String,
+    lb: String,
+}
+
+#[derive(Default)]
+struct Steer {
+    items: Vec<Item>,
+    next: usize,
+    /// model command index (= real command number - 1)
+    cmd: i64,
+    /// counted tracer calls started in this command
+    k: i64,
+    ready: bool,
+    in_wait_any: bool,
+    last_call: Option<Instant>,
+    free: bool,
+    done: bool,
+    applied: u64,
+    forced: u64,
+    deferred: u64,
+    sys_match: u64,
+    settle_timeouts: u64,
+}
+
+fn counted(name: &str) -> bool {
+    matches!(name, "cont" | "step" | "interrupt" | "wait" | "patch" | "setregs")
+}
+
+fn due(st: &Steer) -> bool {
+    if st.free || !st.ready {
+        return false;
+    }
+    match st.items.get(st.next) {
+        Some(it) => it.c < st.cmd || (it.c == st.cmd && it.k <= st.k),
+        None => false,
+    }
+}
+
+/// state letter of one task, by tid alone (the pid of a restarted process is not known in advance)
+fn proc_state(_pid: i32, tid: i32) -> String {
+    match std::fs::read_to_string(format!("/proc/{tid}/stat")) {
+        Ok(s) => s.rfind(')').map(|i| s[i + 1..].split_whitespace().next().unwrap_or("?").to_string()).unwrap_or("-".into()),
+        Err(_) => "-".to_string(),
+    }
+}
+
+/// write one byte to the gate of logical thread t and wait until it has settled
+fn release_thread(s: &SessionShared, t: usize, st: &Arc<Mutex<Steer>>) -> Value {
+    let tid = s.acks.lock().unwrap().tids.get(&(t as u8)).copied();
+    let gate_before = s.acks.lock().unwrap().at_gate.get(&(t as u8)).copied();
+    let Some(&fd) = s.gate_w.get(t) else { return json!({"err": "no gate"}) };
+    let b = [1u8];
+    unsafe { libc::write(fd, b.as_ptr() as *const libc::c_void, 1) };
+    let mut settled = "unknown_tid";
+    if let Some(tid) = tid {
+        let deadline = Instant::now() + Duration::from_millis(1500);
+        settled = "timeout";
+        while Instant::now() < deadline {
+            let ps = proc_state(s.pid, tid);
+            if ps == "t" {
+                settled = "stop";
+                break;
+            }
+            if ps == "Z" || ps == "X" || ps == "-" {
+                settled = "gone";
+                break;
+            }
+            let g = s.acks.lock().unwrap().at_gate.get(&(t as u8)).copied();
+            if g != gate_before && g.is_some() {
+                settled = "next_gate";
+                break;
+            }
+            std::thread::sleep(Duration::from_micros(200));
+        }
+        if settled == "timeout" {
+            st.lock().unwrap().settle_timeouts += 1;
+        }
+    }
+    json!({"tid": tid, "settled": settled})
+}
+
+struct SessionShared {
+    pid: i32,
+    acks: Arc<Mutex<Acks>>,
+    gate_w: Vec<i32>,
+    nworkers: usize,
+}
+
+fn scheduler(sh: SessionShared, st: Arc<Mutex<Steer>>) {
+    loop {
+        if st.lock().unwrap().done {
+            return;
+        }
+        // workers at their first gate -> the model's initial prompt is reached
+        {
+            let mut g = st.lock().unwrap();
+            if !g.ready {
+                let a = sh.acks.lock().unwrap();
+                if (0..sh.nworkers).all(|w| a.at_gate.contains_key(&(w as u8))) {
+                    g.ready = true;
+                    g.k = sh.nworkers as i64 + 1;
+                }
+            }
+        }
+        if let Some(p) = interpose::wait_parked(Duration::from_millis(10)) {
+            // perform everything that is due at this point of the tracer
+            loop {
+                let it = {
+                    let g = st.lock().unwrap();
+                    if !due(&g) {
+                        break;
+                    }
+                    g.items[g.next].clone()
+                };
+                let tid = sh.acks.lock().unwrap().tids.get(&(it.t as u8)).copied();
+                // a thread that sits in a ptrace-stop cannot move: retry at the tracer's next counted call
+                if let Some(tid) = tid {
+                    if proc_state(sh.pid, tid) == "t" {
+                        let mut g = st.lock().unwrap();
+                        let (c, k) = (g.cmd, g.k);
+                        let n = g.next;
+                        g.items[n].c = c;
+                        g.items[n].k = k + 1;
+                        g.deferred += 1;
+                        break;
+                    }
+                }
+                let r = release_thread(&sh, it.t, &st);
+                let mut g = st.lock().unwrap();
+                g.next += 1;
+                g.applied += 1;
+                if it.sys == p.name {
+                    g.sys_match += 1;
+                }
+                let (c, k) = (g.cmd, g.k);
+                drop(g);
+                interpose::push(json!({"ev": "release", "thread": it.t, "at": p.name, "at_tid": p.tid, "cmd": c, "k": k,
+                                       "want": {"c": it.c, "k": it.k, "sys": it.sys, "lb": it.lb}, "forced": false, "res": r}));
+            }
+            interpose::release();
+            continue;
+        }
+        // tracer not parked: is it blocked in waitpid(-1) with nothing coming?
+        let (stuck, exhausted) = {
+            let g = st.lock().unwrap();
+            let quiet = g.last_call.is_some_and(|t| t.elapsed() > Duration::from_millis(25));
+            (g.ready && !g.free && g.in_wait_any && quiet, g.next >= g.items.len())
+        };
+        if !stuck {
+            continue;
+        }
+        if exhausted {
+            // free tail: every thread may run to its end
+            let mut g = st.lock().unwrap();
+            g.free = true;
+            drop(g);
+            let buf = [1u8; 64];
+            for &fd in &sh.gate_w {
+                unsafe { libc::write(fd, buf.as_ptr() as *const libc::c_void, buf.len()) };
+            }
+            interpose::push(json!({"ev": "free_tail"}));
+            continue;
+        }
+        let it = {
+            let g = st.lock().unwrap();
+            g.items[g.next].clone()
+        };
+        let r = release_thread(&sh, it.t, &st);
+        let mut g = st.lock().unwrap();
+        g.next += 1;
+        g.forced += 1;
+        g.last_call = Some(Instant::now());
+        let (c, k) = (g.cmd, g.k);
+        drop(g);
+        interpose::push(json!({"ev": "release", "thread": it.t, "at": "wait", "at_tid": -1, "cmd": c, "k": k,
+                               "want": {"c": it.c, "k": it.k, "sys": it.sys, "lb": it.lb}, "forced": true, "res": r}));
+    }
+}
+
+fn run_steer(puppet: &str, src: &str, lines: &Value, job: &Value, kept: &mut Option<Kept>) -> Value {
+    let t0 = Instant::now();
+    let mut s = launch(puppet, src, lines, job, kept);
+    interpose::push(json!({"ev": "bps", "addrs": s.bps}));
+    let items: Vec<Item> = job["script"]
+        .as_array()
+        .cloned()
+        .unwrap_or_default()
+        .iter()
+        .map(|i| Item {
+            c: i["c"].as_i64().unwrap_or(0),
+            k: i["k"].as_i64().unwrap_or(0),
+            t: i["t"].as_u64().unwrap_or(0) as usize,
+            sys: i["sys"].as_str().unwrap_or("").to_string(),
+            lb: i["lb"].as_str().unwrap_or("").to_string(),
+        })
+        .collect();
+    let nitems = items.len();
+    let st = Arc::new(Mutex::new(Steer { items, ..Default::default() }));
+    let sh = SessionShared { pid: s.pid, acks: s.acks.clone(), gate_w: s.gate_w.clone(), nworkers: num(job, "n", 2) as usize };
+    let st2 = st.clone();
+    let sched = std::thread::spawn(move || scheduler(sh, st2));
+    let st3 = st.clone();
+    interpose::hold_when(move |p: &Pending| {
+        let mut g = st3.lock().unwrap();
+        g.last_call = Some(Instant::now());
+        let hold = due(&g);
+        g.in_wait_any = p.name == "wait" && p.tid == -1;
+        if counted(p.name) {
+            g.k += 1;
+        }
+        hold
+    });
+    interpose::start();
+    let max_cmds = num(job, "max_cmds", 1000) as usize;
+    let mut ncmd = 0usize;
+    let mut ok_exit = false;
+    let mut last = String::new();
+    while ncmd < max_cmds {
+        ncmd += 1;
+        {
+            let mut g = st.lock().unwrap();
+            g.cmd = ncmd as i64 - 1;
+            if ncmd > 1 {
+                g.k = 0;
+            }
+            g.in_wait_any = false;
+        }
+        let tasks = if ncmd > 1 { probe::task_states_json(s.pid) } else { Value::Null };
+        interpose::push(json!({"ev": "cmd", "cmd": ncmd, "name": if ncmd == 1 { "start" } else { "continue" }, "tasks": tasks}));
+        let tc = Instant::now();
+        arm_watchdog(job, s.pid, ncmd);
+        let res = one_command(&mut s, ncmd == 1);
+        disarm_watchdog();
+        if std::env::var("C09_TIMING").is_ok() {
+            eprintln!("[c09] cmd {ncmd} {:?}", tc.elapsed());
+        }
+        st.lock().unwrap().in_wait_any = false;
         let rep = report(&s, ncmd, &res);
         last = rep["kind"].as_str().unwrap_or("").to_string();
         interpose::push(rep);
@@ -324,7 +720,17 @@ fn run_free(puppet: &str, src: &str, lines: &Value, job: &Value) -> Value {
             _ => break,
         }
     }
-    finish(s, job, json!({"cmds": ncmd, "last": last}), ok_exit, t0)
+    let meta = {
+        let mut g = st.lock().unwrap();
+        g.done = true;
+        json!({"cmds": ncmd, "last": last, "items": nitems, "applied": g.applied, "forced": g.forced,
+               "deferred": g.deferred, "sys_match": g.sys_match, "unused": nitems.saturating_sub(g.next),
+               "settle_timeouts": g.settle_timeouts})
+    };
+    interpose::clear_hold();
+    interpose::release();
+    let _ = sched.join();
+    finish(s, job, meta, ok_exit, t0, kept)
 }
 
 fn main() {
@@ -333,19 +739,24 @@ fn main() {
         vharness::tool_error("usage: c09 <jobs.json>");
     }
     interpose::set_tracer_thread();
+    start_watchdog();
     let spec = read_json(&args[1]);
     let puppet = spec["puppet"].as_str().unwrap().to_string();
     let src = spec["src"].as_str().unwrap_or("c09p.rs").to_string();
     let lines = spec["lines"].clone();
     let so = std::io::stdout();
+    let mut kept: Option<Kept> = None;
     for job in spec["jobs"].as_array().cloned().unwrap_or_default() {
         let res = match job["mode"].as_str() {
-            Some("free") => run_free(&puppet, &src, &lines, &job),
+            Some("free") => run_free(&puppet, &src, &lines, &job, &mut kept),
+            Some("steer") => run_steer(&puppet, &src, &lines, &job, &mut kept),
             _ => json!({"id": job["id"], "ok": false, "err": "unknown mode"}),
         };
         let mut h = so.lock();
         let _ = writeln!(h, "{}", serde_json::to_string(&res).unwrap());
         let _ = h.flush();
     }
-    let _ = (mpsc::channel::<Pending>, AsRawFd::as_raw_fd as fn(&std::fs::File) -> i32);
+    if let Some(k) = kept.take() {
+        let _ = catch(move || drop(k.dbg));
+    }
 }
